@@ -170,7 +170,7 @@ func (ex *Explorer) Run() *HarnessResult {
 		ex.MaxDecisions = 4000
 	}
 	if ex.MaxConcRange == 0 {
-		ex.MaxConcRange = 64
+		ex.MaxConcRange = 128
 	}
 	if ex.MaxPaths == 0 {
 		ex.MaxPaths = 2000000
